@@ -73,6 +73,21 @@ def gen(rng, tier):
         t += 100 * max(r[0] for r in rates) + 2 * S          # every entry has expired
         lines.append("at %d preq a 1 %d 8 barrier=1" % (t, 8 + b))
         yield lines
+    # a per-request rate set (ExtractRates) with a much longer period than the defaults: the entry must live as long as the
+    # set actually in use needs (10 x its longest period + 1 s), not as long as the default rates would
+    for k in range({"quick": 6, "thorough": 40, "search": 10}.get(tier, 6)):
+        b = rng.choice([2, 3, 5, 10])
+        plan = rc.fmt_rates([(rng.choice([60 * S, 600 * S, 3600 * S]), rng.choice([1, b]), b)])
+        lines = ["cfg rate %s cap=%s" % (rc.fmt_rates([(S, 1, rng.choice([1, 2]))]), rng.choice(["default", "3"]))]
+        t = rng.choice([0, 5, S - 1])
+        for src in rng.sample(["a", "b", "c"], rng.randint(1, 2)):
+            for _ in range(b + 1):
+                lines.append("at %d req %s 1 rates=%s" % (t, src, plan))
+            for gap in (11 * S, rng.choice([2 * S, 30 * S]), rng.choice([12 * S, 100 * S])):
+                t += gap
+                for _ in range(rng.randint(1, b + 1)):
+                    lines.append("at %d req %s 1 rates=%s" % (t, src, plan))
+        yield lines
     if tier == "thorough":
         # sustained traffic for many entry lifetimes
         for k in range(40):
@@ -115,6 +130,17 @@ def monitor(ops, outs):
     if broken:
         return [] if broken[1].startswith("uninterpretable") else ["broken: line %d: %s" % broken]   # a line the parser cannot read is left to the model/impl diff
     rates = rc.parse_rates(cfg[2])
+    if kind == "rate" and evs and all(e.rates for e in evs) and len(set(e.rates for e in evs)) == 1 and len(set(e.src for e in evs)) <= rc.cap_of(cfg):
+        # every request of the history names the same rate set (one plan handed out by ExtractRates): that set is the
+        # token-bucket rate of every source from its first request on, and the statement is about it
+        plan = rc.parse_rates(evs[0].rates)
+        hyp = rc.refill_within_ttl(plan)
+        keep = 10 * (max(r[0] for r in plan) // S) * S
+        for s in sorted(set(e.src for e in evs)):
+            mine = [e for e in evs if e.src == s]
+            if hyp or all(b.t - a.t <= keep for a, b in zip(mine, mine[1:])):
+                _window_check(s, plan, mine, bad)
+        return bad
     if any(e.rates for e in evs):
         # the configuration changes along the history: only the stretch before the first change is judged
         cut = min(e.idx for e in evs if e.rates)
